@@ -191,6 +191,9 @@ type fsResult struct {
 
 // replayFullSync replays a request history inside a controlled run with a single driver thread
 // (timers are owned by the scheduler: "expire" lets the lease time out, nothing else does).
+// limits of one replayed history (a long history raises them)
+var fsHorizon, fsTimeout = 20000, 60 * time.Second
+
 func replayFullSync(hist []FsOp) (res fsResult) {
 	jw := jobs.JWorldGet(300)
 	h := jw.W.NewHist()
@@ -233,7 +236,7 @@ func replayFullSync(hist []FsOp) (res fsResult) {
 		res.viol = append(res.viol, engine.Violation{Key: key, What: what})
 	}
 	server.VInstallHooks()
-	s := vsync.NewSched(nil, 20000)
+	s := vsync.NewSched(nil, fsHorizon)
 	var panicMsg string
 	body := func() {
 		defer func() {
@@ -426,7 +429,7 @@ func replayFullSync(hist []FsOp) (res fsResult) {
 			}
 		}
 	}
-	timedOut := s.Run([]func(){body}, []string{"client"}, 60*time.Second)
+	timedOut := s.Run([]func(){body}, []string{"client"}, fsTimeout)
 	if timedOut || s.Deadlock || s.HorizonHit {
 		fail("hang", fmt.Sprintf("the history does not finish (deadlock=%v %s)", s.Deadlock, s.DeadlockInfo))
 		jobs.JWorldAbandon()
@@ -463,6 +466,10 @@ func init() {
 				_ = json.Unmarshal(raw, &op)
 				hist = append(hist, op)
 			}
+			fsHorizon, fsTimeout = 20000, 60*time.Second
+			if string(t.Params) == `{"large":true}` {
+				fsHorizon, fsTimeout = 5000000, 800*time.Second
+			}
 			r := replayFullSync(hist)
 			if r.key == "skip" {
 				return engine.SeqResult{Key: "skip", Skip: true}
@@ -491,6 +498,53 @@ func init() {
 			depth, budget = 5, 2400
 		}
 		engine.RunSeq(r, engine.SeqSpec{Name: "c09-seq", WorkerArgs: []string{"worker", "fullsync"}, Alphabet: raw, Depth: depth, Budget: time.Duration(budget) * time.Second})
+		// one long history: a dataset larger than the batches the completion works in (1000): load n entities, a first
+		// sync that leaves one early entity out (a tombstone on the first page), a second one that only carries the first
+		// 1200: everything else - more than 1000 entities - must be deleted, each once
+		{
+			n := 2500
+			if !r.Quick() {
+				n = 6000
+			}
+			var all, allBut, first []string
+			for i := 0; i < n; i++ {
+				id := fmt.Sprintf("p%04d", i)
+				all = append(all, id)
+				if i != 10 {
+					allBut = append(allBut, id)
+					if i < 1200 {
+						first = append(first, id)
+					}
+				}
+			}
+			var hist []json.RawMessage
+			for _, o := range []FsOp{{K: "batch", Ents: all}, {K: "startend", ID: "x", Ents: allBut}, {K: "startend", ID: "y", Ents: first}} {
+				b, _ := json.Marshal(o)
+				hist = append(hist, b)
+			}
+			tb, _ := json.Marshal(engine.SeqTask{Hist: hist, Params: json.RawMessage(`{"large":true}`)})
+			pl := &engine.Pool{N: 1, Args: []string{"worker", "fullsync"}, Timeout: 900 * time.Second}
+			out := pl.Do([]json.RawMessage{tb}, nil)
+			var lr engine.SeqResult
+			if out[0].Err != "" || json.Unmarshal(out[0].Out, &lr) != nil || lr.HarnessEr != "" {
+				r.Cap("c09-large: worker problem " + out[0].Err + " " + lr.HarnessEr)
+			} else {
+				for _, v := range lr.Viol {
+					v.Engine = "ENUM:c09-large"
+					if len(v.Key) > 200 {
+						v.Key = v.Key[:200]
+					}
+					if len(v.What) > 1500 {
+						v.What = v.What[:1500] + " ..."
+					}
+					v.Replay = map[string]interface{}{"worker": []string{"worker", "fullsync"}, "entities": n}
+					r.AddViolation(v)
+				}
+				r.Evaluations += lr.Checks
+				r.Traces++
+				r.AddPart(map[string]interface{}{"engine": "ENUM", "name": "c09-large-fullsync", "entities": n, "checks": lr.Checks})
+			}
+		}
 		c09Sched(r)
 	})
 	_ = model.NewWorld
